@@ -2,8 +2,9 @@
 //! Case: (case (cfg table|stream plain|inc) <doc> <prev xHEX> <full> <cut> (chunks n...) <job> [(pad (id len seed)...)])
 //!   full = xHEX or (f xHEX xHEX ...) (concatenation; the model's parser is quadratic in the length of an atom)
 //!   pad  = stream objects (id 0) of len pseudo-random printable bytes added to <doc> (kept out of the case text for the same reason)
-//!   job ::= (ref)                                     -> (ref <rc> <full> <state> (ids n...) <cut> (sizes n...))   [generation phase only]
+//!   job ::= (ref)                                     -> (ref <rc> <full> <state> (ids n...) <cut> (sizes n...) <top>)   [generation phase only]
 //!                                                        sizes = the write_all buffers the save path issues, measured with a recording sink
+//!                                                        top = largest object number (plain) or `-` (incremental)
 //!         | (one call|pos (script r...))              -> (res <rc> <delivered> <state> <resave same bytes 0/1>)
 //!         | (sweep (script r...) <hard> lo hi step)   -> (sweep (<rc> <delivered length> <max_id> <Size> <resave same>) ...)
 //!         | (path file|dir|full|(limit p) (sizes n...)) -> (pres <rc> <file content> <state> <resave same bytes 0/1>)
@@ -329,8 +330,10 @@ struct Outcome {
 struct Reference {
     /// content the complete output loads to (None: the document breaks lopdf's max_id invariant, not compared)
     content: Option<Result<Sx, String>>,
-    /// document state before the save and after a successful one
+    /// document state before the save, the same with max_id raised to the largest object number (what a plain save
+    /// starts with), and after a successful save
     before: Sx,
+    before_raised: Sx,
     after_ok: Sx,
     /// bytes written before the save path mutates the document
     cut: usize,
@@ -343,7 +346,7 @@ fn residue_verdict(rf: &Reference, after: &Sx, ok: bool) -> Option<String> {
         if *after != rf.after_ok {
             return Some("a successful save left the document in another state than the reference save".into());
         }
-    } else if *after != rf.before && *after != rf.after_ok {
+    } else if *after != rf.before && *after != rf.before_raised && *after != rf.after_ok {
         return Some(format!(
             "a failed save left the document in a state that is neither the original nor that of a successful save: {}",
             after.print()
@@ -676,6 +679,11 @@ fn main() {
                         Sx::tagged("ids", ids),
                         Sx::num(cut.map(|c| c as i64).unwrap_or(-1)),
                         Sx::tagged("sizes", sizes),
+                        // largest object number: what Document::save_internal raises max_id to (not IncrementalDocument's)
+                        match &base {
+                            Target::Plain(d) => d.objects.keys().next_back().map(|k| Sx::num(k.0)).unwrap_or(Sx::id("-")),
+                            Target::Inc(_) => Sx::id("-"),
+                        },
                     ],
                 ),
                 "skip".into(),
@@ -694,10 +702,18 @@ fn main() {
         // own object number max_id + 1 may collide with an object, which already breaks the FIRST save;
         // that is a precondition of saving (C01), not a consequence of the failed save).
         let max_id = base.doc().max_id;
-        let wf = base.doc().objects.keys().all(|(i, _)| *i <= max_id);
+        // (a plain save raises max_id itself since /repo 19ab1a6; IncrementalDocument::save does not)
+        let wf = matches!(base, Target::Plain(_)) || base.doc().objects.keys().all(|(i, _)| *i <= max_id);
         let rf = Reference {
             content: if wf { Some(content_of(&full)) } else { None },
             before: base.state_sx(),
+            before_raised: Sx::tagged(
+                "state",
+                vec![
+                    Sx::num(base.doc().objects.keys().next_back().map_or(base.doc().max_id, |k| k.0.max(base.doc().max_id))),
+                    dict_to_sx(&base.doc().trailer),
+                ],
+            ),
             after_ok: ref_doc.state_sx(),
             cut: a[4].as_u64().unwrap_or(0) as usize,
         };
